@@ -53,7 +53,7 @@ def adjust_call_sites(chk, pid):
                 chk.ob("C03.R4", ok, f.module, f.qual, "adjust-flow:%s" % f.qual, "capital injected here is an external flow and must not move the index (%s)" % exp[1],
                        where="%s:%d" % (f.module, node.lineno), expected="flow=True (default)", found=ast.unparse(node)[:120], sample={"call": ast.unparse(node)[:100]})
                 upd_kw = [k for k in node.keywords if k.arg == "update"]
-                if upd_kw and pid == "C03":
+                if upd_kw and pid in ("C03", "C06"):
                     okk = isinstance(upd_kw[0].value, ast.Constant) and upd_kw[0].value.value is True
                     chk.ob("C03.R4", okk, f.module, f.qual, "adjust-update:%s" % f.qual,
                            "a capital flow must mark the tree stale so that it is recorded on the date it happens (nothing else in this host refreshes the tree)",
